@@ -93,7 +93,7 @@ _BASE_INDEX = None
 _BASELINE_KEYS: set = set()
 
 
-def selftest(reg: Registry, root: str, jobs: int = 12, baseline_new=()):
+def selftest(reg: Registry, root: str, jobs: int = int(os.environ.get("VERIF_JOBS", "8")), baseline_new=()):
     """Mutants/benign refactors are judged relative to the baseline run: a mutant must add a
     violation (rule, key) that the unchanged tree does not have; a benign refactor must add none."""
     import multiprocessing as mp
